@@ -911,10 +911,12 @@ impl<'a> FilterGen<'a> {
             } else {
                 match &ty {
                     Ty::Array { .. } => {
-                        let i: i64 = match self.r.random_range(0..8) {
+                        // (8 and above: the octal, decimal and hex spellings of the index differ in their digits)
+                        let i: i64 = match self.r.random_range(0..10) {
                             0 => 4294967295,
                             1 => 3,
                             2 => 2,
+                            3 | 4 => self.r.random_range(8..12),
                             _ => self.r.random_range(0..2),
                         };
                         out.push(int_tok(self.r, i));
